@@ -376,6 +376,17 @@ impl ClusterHandler for GenCommHandler<'_> {
 
             CommissioningErrorEnum::map(ctx.exchange().with_state(|state| {
                 let sess = ctx.exchange().id().session(&mut state.sessions);
+
+                // Only the context that armed the fail-safe may force it to expire: another
+                // administrator gets `BusyWithOtherAdmin`, as for a re-arm
+                if state.failsafe.is_armed()
+                    && !state
+                        .failsafe
+                        .is_armed_for(sess.get_session_mode().fab_idx())
+                {
+                    return Err(ErrorCode::NocInvalidFabricIndex.into());
+                }
+
                 let pase_sess_id =
                     matches!(sess.get_session_mode(), SessionMode::Pase { .. }).then(|| sess.id());
 
